@@ -83,6 +83,8 @@ def check_lifecycle(case, ctx):
             break
         if name != "PCACD":
             decoy.step(items[len(items) - 1 - i] if i - start else items[0], i - start)
+            if spec.family == "stream":
+                decoy.step(items[(len(items) - 1 - i) // 2], 1)  # the decoy runs ahead: its sample indices are larger
         try:
             with sut(detector=name, allow=(ValueError,)):
                 np.random.seed(base + i)
